@@ -570,6 +570,103 @@ def work_interactive(shard):
 
 
 # ---------------------------------------------------------------------------------------
+# the program suspends itself: a SYSTEM statement in the middle of the program ends the session inside that
+# statement; the resumed session goes on with the statement after it, wherever the SYSTEM stands in its line
+
+SYSTEM_LINES = {
+    'own-line': b'30 @',
+    'after-colon': b'30 A%=A%+1:@:N$=N$+"c"',
+    'then-more': b'30 IF I%=2 THEN @:N$=N$+"c"',
+    'then-last': b'30 IF I%=2 THEN @',
+    'else-more': b'30 IF I%=1 THEN N$=N$+"t" ELSE @:N$=N$+"c"',
+    'then-else': b'30 IF I%=2 THEN @ ELSE N$=N$+"e"',
+    'then-blanks': b'30 IF I%=2 THEN  @  :N$=N$+"c"',
+    'last-in-line': b'30 N$=N$+"b":@',
+}
+
+
+def _system_program(name, marker):
+    return [b'10 OPEN "O.TXT" FOR OUTPUT AS 1', b'20 FOR I%=1 TO 3', SYSTEM_LINES[name].replace(b'@', marker),
+            b'40 N$=N$+"x":PRINT#1,I%;N$', b'50 NEXT', b'60 CLOSE:D%=1:SYSTEM']
+
+
+def _system_state(s, mount):
+    vs = {v: s.get_variable(v) for v in ('N$', 'I%', 'A%', 'D%', 'Z%')}
+    s.close()
+    files = {}
+    for fn in sorted(os.listdir(mount)):
+        with open(os.path.join(mount, fn), 'rb') as f:
+            files[fn] = f.read()
+    return {'vars': vs, 'files': files}
+
+
+def work_system(shard):
+    part = Partial()
+    for name in shard:
+        case = {'system_line': name}
+        with H.Scratch() as base:
+            # reference: a counter in place of SYSTEM
+            mref = os.path.join(base, 'ref')
+            os.makedirs(mref)
+            s = _mk(mref, _system_program(name, b'Z%=Z%+1'))
+            r = H.run(s, b'RUN')
+            if r.exc is not None or not r.exit:
+                raise CheckError('reference for %s did not reach SYSTEM: %r' % (name, r))
+            ref = _system_state(s, mref)
+            stops = ref['vars'].pop('Z%')
+            mount = os.path.join(base, 'm')
+            os.makedirs(mount)
+            s = _mk(mount, _system_program(name, b'SYSTEM'))
+            r = H.run(s, b'RUN')
+            problem = None
+            nstop = 0
+            while problem is None:
+                if r is not None and r.exc is not None:
+                    problem = ('host-exception-before-suspend', repr(r.exc))
+                    break
+                if s.get_variable('D%') == 1:
+                    break
+                nstop += 1
+                if nstop > stops + 2:
+                    problem = ('does-not-finish', 'suspended %d times, the SYSTEM statement is reached %d times' % (nstop, stops))
+                    break
+                statefile = os.path.join(base, 'sysstate%d' % nstop)
+                s.suspend(statefile)
+                s.close()
+                s = H.Session.resume(statefile)
+                os.unlink(statefile)
+                s.start()
+                ended, exc = _interact(s, {})
+                r = None
+                if ended == 'host-exception':
+                    problem = ('host-exception-after-resume', repr(exc))
+                elif ended != 'exit':
+                    problem = ('resumed-session-does-not-reach-the-next-SYSTEM', ended)
+            part.n += 1
+            part.traces += 1 + nstop
+            if problem:
+                part.violation('resume-system/%s' % problem[0], 'line %r: %s' % (SYSTEM_LINES[name], problem[1]), case)
+                try:
+                    s.close()
+                except Exception:
+                    pass
+                continue
+            st = _system_state(s, mount)
+            st['vars'].pop('Z%')
+            diffs = [f for f in ('vars', 'files') if st[f] != ref[f]]
+            if nstop != stops:
+                diffs.append('suspended-%d-times-instead-of-%d' % (nstop, stops))
+            part.classes.add('system/%s/%s' % (name, 'ok' if not diffs else 'diff'))
+            if diffs:
+                part.violation('resume-system/diverges/%s' % name,
+                               'program with line %r suspended by its own SYSTEM and resumed each time: differs in %s from the same program '
+                               'with a counter in place of SYSTEM; variables %r expected %r; file %r expected %r' % (
+                                   SYSTEM_LINES[name], diffs, st['vars'], ref['vars'], st['files'].get('O.TXT'), ref['files'].get('O.TXT')), case)
+    part.sample({'system_line': shard[0]})
+    return part
+
+
+# ---------------------------------------------------------------------------------------
 # byte alteration
 
 def _make_state_files(base):
@@ -666,6 +763,10 @@ def legs(ctx):
             masks = [0x01, 0x80, 0xff, 0x10]     # the large file: 4 masks per offset
         for lo in range(0, n, step):
             shards.append((which, lo, lo + step, masks))
+    out.append(Leg('system-stmt', [[n] for n in sorted(SYSTEM_LINES)], work_system, exhaustive=True,
+                   bound='%d placements of a SYSTEM statement inside a loop (own line, after a colon, after THEN / ELSE with and without '
+                         'further statements, with blanks, last in its line): the session is suspended inside the statement each time '
+                         'it is reached and resumed; variables and file equal those of the program with a counter in its place' % len(SYSTEM_LINES)))
     inter = [[(n, t)] for n in sorted(INTERACTIVE_PROGRAMS) for t in INTERACTIVE_TYPED]
     out.append(Leg('interactive', inter, work_interactive, exhaustive=True,
                    bound='%d programs x %d typed dialogues (RUN / a direct GOTO into the program / RUN 20 / a statement before RUN, then SYSTEM) '
@@ -693,6 +794,8 @@ def replay(ctx, leg, case):
         return part
     if leg == 'blocked-input':
         return work_blocked([case['blocked']])
+    if leg == 'system-stmt':
+        return work_system([case['system_line']])
     if leg == 'interactive':
         part = work_interactive([(case['interactive_program'], tuple(case['typed']))])
         part.viol = [v for v in part.viol if v[2].get('boundary') == case['boundary']]
